@@ -236,11 +236,15 @@ static void run_pool(Rng& g, long nops, std::size_t node_size, std::size_t block
             Live l = live.back();
             live.pop_back();
             O->on_release(l.id, "try_deallocate_array (prologue)");
-            bool ok = pool->try_deallocate_array(l.p, l.count);
+            bool via_traits = g.chance(50); // (with a constant block size and an exact fit count * size == max_array_size())
+            bool ok = via_traits ? CTr::try_deallocate_array(*pool, l.p, l.count, ns, 1) : pool->try_deallocate_array(l.p, l.count);
             if (!ok)
                 O->fail(fmt("try_deallocate_array refused the array over all %zu nodes of the block that the pool handed out (offset %zu)",
                             l.count, R->off(l.p)));
-            emit(fmt("pool try_dealloc_array %zu %zu", R->off(l.p), l.count), ok ? "true" : "false", pool_state(*pool));
+            if (via_traits)
+                emit(fmt("pool t_try_dealloc_array %zu %zu %zu 1", R->off(l.p), l.count, ns), ok ? "true" : "false", pool_state(*pool));
+            else
+                emit(fmt("pool try_dealloc_array %zu %zu", R->off(l.p), l.count), ok ? "true" : "false", pool_state(*pool));
             ++n_dealloc;
         }
     }
@@ -436,6 +440,12 @@ static void run_pool(Rng& g, long nops, std::size_t node_size, std::size_t block
                     O->fail(fmt("C18 memory_pool: max_node_size %zu / max_alignment %zu for node size %zu", mn, mal, ns));
                 above("max_node_size", [&] { return Tr::allocate_node(*pool, mn + 1, 1); });
                 above("max_alignment", [&] { return Tr::allocate_node(*pool, 1, mal * 2); });
+                if (mal * 2 <= mn)
+                { // a size that would itself allow the larger alignment, in a pool whose nodes do not
+                    above("max_alignment", [&] { return Tr::allocate_node(*pool, mal * 2, mal * 2); });
+                    if (arrays)
+                        above("max_alignment", [&] { return Tr::allocate_array(*pool, 1, mal * 2, mal * 2); });
+                }
                 if (arrays && ma < std::size_t(-1) - 2 * mn) // (an exhausted fixed source reports a wrapped, astronomically large figure)
                     above("max_array_size", [&] { return Tr::allocate_array(*pool, ma / mn + 1, mn, 1); });
                 if (pool_state(*pool) != before)
@@ -1371,6 +1381,8 @@ int main(int argc, char** argv)
             std::size_t bs = memory_pool<PT>::min_block_size(ns, nodes) + (slack_sel < 2 ? 0 : (slack_sel - 1) * 5);
             if (growing)
                 run_pool<PT, growing_block_allocator<RegionAlloc>>(g, nops, ns, bs, "growing");
+            else if (subject.find("const") != std::string::npos) // a source whose blocks all have the same size (growth factor 1/1)
+                run_pool<PT, growing_block_allocator<RegionAlloc, 1, 1>>(g, nops, ns, bs, "const");
             else
                 run_pool<PT, fixed_block_allocator<RegionAlloc>>(g, nops, ns, bs, "fixed");
         };
